@@ -78,6 +78,13 @@ StepDiff(e) ==
             ELSE IF pr.p # e.post THEN <<0, o.op \o ": bytes differ from the transcription">>
             ELSE IF pr.ok /\ pr.v # [x \in DOMAIN pr.v |-> ObsView(e.view)[x]] THEN <<0, o.op \o ": bookkeeping differs from the transcription">>
             ELSE <<1, "">>
+  ELSE IF o.op = "rename" THEN
+       IF ~PolicyOK(e.pre) \/ ~GoodName(o.target) \/ ~GoodName(o.source) THEN <<0, "">>
+       ELSE LET pr == ObjRename(e.pre, o.target, o.source, o.suffix) IN
+            IF pr.ok # (e.res = "ok") THEN <<0, "rename: the transcription " \o (IF pr.ok THEN "succeeds" ELSE "fails") \o ", the object reports " \o e.res \o " " \o e.e>>
+            ELSE IF pr.p # e.post THEN <<0, "rename: bytes differ from the transcription">>
+            ELSE IF pr.ok /\ pr.v # ObsView(e.view) THEN <<0, "rename: bookkeeping differs from the transcription">>
+            ELSE <<1, "">>
   ELSE IF o.op = "recompute" THEN
        IF e.mc0 /\ ~PolicyOK(e.pre) THEN <<0, "">>
        ELSE LET q == IF e.mc0 THEN UncompressOut(e.pre) ELSE e.pre IN
